@@ -917,11 +917,11 @@ def main():
     ck.trusted = TRUSTED_DEFAULT + ['IEEE-754: w/m and 1/w are correctly rounded, so float(exact model value) must equal the NumPy result bit for bit']
     # T-gen: re-extract the core update steps from /repo's current source (translate/cores.py); the generated
     # obligations say the extracted IR is the reference program whose interpreter is proved equal to the model
-    ck.cov['cores'] = cores.generate(families=['util'])
+    ck.cov['cores'] = cores.generate(families=['util', 'pinutil'])
     for p_ in ck.cov['cores']['problems']:
         ck.corr_break('core extractor (translate/cores.py)', p_)
     ok = ck.lean_gate(['BctVerif.Props.C17'], extra_modules=[MODEL])
-    ck.lean_gate([], gen_modules=['BctVerif.Gen.CoresUtil'])
+    ck.lean_gate([], gen_modules=['BctVerif.Gen.CoresUtil', 'BctVerif.Gen.CoresPinUtil'])
     if ck.tier == 'thorough' and ok:
         ck.leanchecker(['BctVerif.Props.C17', MODEL])
     rs = ck.rs
